@@ -31,6 +31,8 @@ type Opt struct {
 	Split1    bool // single-byte nonce split in generated metadata (quick tier)
 	NoURIs    bool // generated metadata carries no URIs
 	FullAmounts bool // numeric amounts keep their adversarial length set even in a Small scenario
+	VaryHash  bool // generated and carried metadata hashes have length 0 or 1 (else 1)
+	Call2     bool // attached calls may carry two call arguments
 	SysDest   bool // allow the system account address as transfer destination (finding F10's class)
 	Presence  int  // account presence: 0 free, 1 (S,D), 2 (S,nil), 3 (nil,D)
 	MultiK    int  // multi-transfer: number of tokens (0: 1..2)
@@ -118,13 +120,15 @@ func schedule(tag string) *vmcommon.GasCost {
 
 func newScn(name string, o Opt) *Scn {
 	cfg := world.Config{Faults: o.Faults, CheckInv: o.CheckInv, NoFrozenGen: o.NoFrozen, MetaFieldLen: 1, MaxURIs: 1, Thin: o.Thin, NoPauseGen: o.NoPause, Split1: o.Split1 && !verif.Thorough(),
-		GasEnough: o.GasEnough, NoReturnAfterError: o.NoRAE, DirectCallOnly: o.Direct}
+		GasEnough: o.GasEnough, NoReturnAfterError: o.NoRAE, DirectCallOnly: o.Direct, VaryHash: o.VaryHash}
 	if o.RealRoles {
 		cfg.RolesMax = 2
 		cfg.RoleLens = []int{15, 17, 22, 27}
 	}
 	small = o.Small || o.Wild // wild scenarios discard the typical arguments: build them in their smallest shape
 	noCall = o.NoCall || o.Wild
+	call2 = o.Call2
+	varyHash = o.VaryHash
 	fullAmounts = o.FullAmounts
 	if o.NoURIs {
 		cfg.MaxURIs = 0
@@ -657,17 +661,23 @@ func scnSaveKeyValue(o Opt) *Scn {
 // ---------------------------------------------------------------------------------------
 // transfers
 
-var noCall bool
+var noCall, call2, varyHash bool
 
 func attachedCall(tag string, args [][]byte) [][]byte {
 	if noCall {
 		return args
 	}
-	switch verif.Choose(tag+".call", 3) {
+	n := 3
+	if call2 {
+		n = 4
+	}
+	switch verif.Choose(tag+".call", n) {
 	case 1:
 		args = append(args, smallBytes(tag+".func"))
 	case 2:
 		args = append(args, smallBytes(tag+".func"), smallBytes(tag+".arg0"))
+	case 3:
+		args = append(args, smallBytes(tag+".func"), smallBytes(tag+".arg0"), smallBytes(tag+".arg1"))
 	}
 	return args
 }
@@ -700,6 +710,9 @@ func transferredToken(w *world.World, tok []byte, nonce uint64, qty *big.Int) []
 	t := &esdt.ESDigitalToken{Type: uint32(vmcommon.NonFungible), Value: new(big.Int).Set(qty)}
 	t.TokenMetaData = &esdt.MetaData{Nonce: nonce, Name: verif.Bytes("p.name", 1), Creator: verif.Bytes("p.creator", 1),
 		Royalties: verif.U32("p.royalties"), Hash: verif.Bytes("p.hash", 1), Attributes: verif.Bytes("p.attr", 1)}
+	if varyHash {
+		t.TokenMetaData.Hash = verif.BytesLen("p.hash.v", 0, 1)
+	}
 	if verif.Bool("p.hasuri") {
 		t.TokenMetaData.URIs = [][]byte{verif.Bytes("p.uri", 1)}
 	}
@@ -726,6 +739,8 @@ func scnNFTTransfer(o Opt) *Scn {
 		payload := transferredToken(s.W, s.Tok, n, qty)
 		args := attachedCall("t", [][]byte{s.Tok, s.NonceB, s.Amt, payload})
 		s.In = s.W.Input(addr32("caller.addr"), s.Dst.Addr, args)
+		// a delivery comes from another shard: the sender is not the recipient
+		verif.Assume(!verif.BytesEq(s.In.CallerAddr, s.In.RecipientAddr))
 		return s
 	}
 	s.userSender()
@@ -786,6 +801,7 @@ func scnMultiTransfer(o Opt) *Scn {
 		}
 		args = attachedCall("t", args)
 		s.In = s.W.Input(addr32("caller.addr"), s.Dst.Addr, args)
+		verif.Assume(!verif.BytesEq(s.In.CallerAddr, s.In.RecipientAddr))
 		return s
 	}
 	s.userSender()
